@@ -237,3 +237,74 @@ Proof.
   rewrite skipn_app, skipn_all, Nat.sub_diag. cbn [skipn app].
   apply f_equal. apply firstn_all.
 Qed.
+
+(* ---------------- fuel always suffices (any input, not only encoder output) ---------------- *)
+
+Lemma split_crlf_shorter s l r :
+  split_crlf s = Some (l, r) -> (List.length r + 2 <= List.length s)%nat.
+Proof.
+  revert l r. induction s as [|c s IH]; intros l r H; [discriminate|].
+  cbn [split_crlf] in H. destruct s as [|d s']; [discriminate|].
+  destruct (Ascii.eqb c CR && Ascii.eqb d LF)%bool.
+  - injection H as <- <-. cbn [List.length]. lia.
+  - destruct (split_crlf (d :: s')) as [[l' r']|] eqn:E; [|discriminate].
+    injection H as <- <-. specialize (IH _ _ eq_refl). cbn [List.length] in *. lia.
+Qed.
+
+Lemma parse_hdrs_fuel fuel : forall s, (List.length s < fuel)%nat -> parse_hdrs fuel s <> PFuel.
+Proof.
+  induction fuel as [|f IH]; intros s Hs; [lia|].
+  cbn [parse_hdrs]. destruct (split_crlf s) as [[l rest]|] eqn:E; [|discriminate].
+  destruct l as [|c l]; [discriminate|].
+  destruct (parse_hline (c :: l)); [|discriminate].
+  pose proof (split_crlf_shorter _ _ _ E) as Hlen.
+  specialize (IH rest ltac:(lia)).
+  destruct (parse_hdrs f rest) as [[hs r]| |]; try discriminate. congruence.
+Qed.
+
+Lemma take_n_shorter n s d r : take_n n s = Some (d, r) -> (List.length r <= List.length s)%nat.
+Proof.
+  unfold take_n. destruct (Nat.leb (N.to_nat n) (List.length s)); [|discriminate].
+  intros H. injection H as <- <-. rewrite skipn_length. lia.
+Qed.
+
+Lemma chunk_dec_loop_fuel fuel : forall acc s,
+  (List.length s < fuel)%nat -> chunk_dec_loop fuel acc s <> PFuel.
+Proof.
+  induction fuel as [|f IH]; intros acc s Hs; [lia|].
+  cbn [chunk_dec_loop]. destruct (split_crlf s) as [[line rest]|] eqn:E; [|discriminate].
+  pose proof (split_crlf_shorter _ _ _ E) as Hlen.
+  destruct (hex_dec line) as [n|]; [|discriminate].
+  destruct (N.eqb n 0).
+  - pose proof (parse_hdrs_fuel (S (List.length rest)) rest ltac:(lia)) as Hp.
+    destruct (parse_hdrs (S (List.length rest)) rest) as [[t r]| |]; try discriminate. congruence.
+  - destruct (take_n n rest) as [[d rest1]|] eqn:Et; [|discriminate].
+    pose proof (take_n_shorter _ _ _ _ Et) as Hl1.
+    destruct rest1 as [|c1 [|c2 rest2]]; try discriminate.
+    destruct (Ascii.eqb c1 CR && Ascii.eqb c2 LF)%bool; [|discriminate].
+    apply IH. cbn [List.length] in Hl1. lia.
+Qed.
+
+Lemma chunk_dec_never_out_of_fuel s : chunk_dec s <> PFuel.
+Proof. unfold chunk_dec. apply chunk_dec_loop_fuel. lia. Qed.
+
+Lemma dechunk_loop_fuel fuel : forall acc s,
+  (List.length s < fuel)%nat -> snd (dechunk_loop fuel acc s) <> DNoFuel.
+Proof.
+  induction fuel as [|f IH]; intros acc s Hs; [lia|].
+  cbn [dechunk_loop]. destruct (split_crlf s) as [[line rest]|] eqn:E; [|cbn; discriminate].
+  pose proof (split_crlf_shorter _ _ _ E) as Hlen.
+  destruct (hex_dec line) as [n|]; [|cbn; discriminate].
+  destruct (N.eqb n 0); [cbn; discriminate|].
+  destruct (take_n n rest) as [[d rest1]|] eqn:Et; [|cbn; discriminate].
+  pose proof (take_n_shorter _ _ _ _ Et) as Hl1.
+  destruct rest1 as [|c1 [|c2 rest2]]; try (cbn; discriminate).
+  destruct (Ascii.eqb c1 CR && Ascii.eqb c2 LF)%bool; [|cbn; discriminate].
+  apply IH. cbn [List.length] in Hl1. lia.
+Qed.
+
+Lemma dechunk_never_out_of_fuel s : snd (dechunk s) <> DNoFuel.
+Proof. unfold dechunk. apply dechunk_loop_fuel. lia. Qed.
+
+Lemma parse_hdrs_never_out_of_fuel s : parse_hdrs (S (List.length s)) s <> PFuel.
+Proof. apply parse_hdrs_fuel. lia. Qed.
